@@ -14,8 +14,12 @@ import time
 import kanirun
 
 VERIF = os.path.dirname(os.path.dirname(os.path.abspath(__file__)))
-REPO = kanirun.REPO
-KANI_DIR = os.path.join(VERIF, "kani")
+KANI_SRC = os.path.join(VERIF, "kani")
+KANI_DIR = KANI_SRC          # replaced by the run's snapshot copy in main()
+
+
+def REPO():
+    return kanirun.REPO
 
 # file -> module path of the harnesses it contains (mount points = hooks H1/H2 in /repo)
 MODPATH = {
@@ -157,10 +161,10 @@ def discover():
 def repo_function_index():
     """name -> set of files defining `fn name` in /repo/src (syn-free scan)."""
     idx = {}
-    for path in glob.glob(os.path.join(REPO, "src", "**", "*.rs"), recursive=True):
+    for path in glob.glob(os.path.join(REPO(), "src", "**", "*.rs"), recursive=True):
         if "/tests/" in path:
             continue
-        rel = os.path.relpath(path, REPO)
+        rel = os.path.relpath(path, REPO())
         for line in open(path, errors="replace"):
             m = re.match(r"^\s*(?:#\[[^\]]*\]\s*)*(?:pub(?:\([a-z]+\))?\s+)?(?:const\s+)?(?:unsafe\s+)?fn\s+([A-Za-z0-9_]+)", line)
             if m:
@@ -180,8 +184,8 @@ def anchor_check(hs):
     # hooks present?
     for base, src in MOUNT.items():
         if any(h.file == base for h in hs):
-            txt = open(os.path.join(REPO, src)).read()
-            if ("/verif/kani/" + base) not in txt:
+            txt = open(os.path.join(REPO(), src)).read()
+            if ("\"/" + base + "\"") not in txt:
                 lost.append("hook mount for %s missing in %s" % (base, src))
     return lost
 
@@ -250,6 +254,12 @@ def main(a):
     pid = a.prop
     meta = prop_meta(pid)
     seed = int(os.environ.get("VERIF_SEED", "0"))
+    global KANI_DIR
+    scratch_root = os.environ.get("VERIF_SCRATCH", "/var/tmp")
+    scratch = tempfile.mkdtemp(prefix="verif-%s-" % pid, dir=scratch_root)
+    if not a.keep:
+        atexit.register(lambda: shutil.rmtree(scratch, ignore_errors=True))
+    _, KANI_DIR = kanirun.snapshot(scratch, KANI_SRC)
     hs_all = discover()
     hs = [h for h in hs_all if pid in h.props or h.role == "canary"]
     if a.tier == "quick":
@@ -270,12 +280,6 @@ def main(a):
         print("UNDECIDED property=%s lost anchors: %s" % (pid, "; ".join(lost)))
         return 2
 
-    scratch_root = os.environ.get("VERIF_SCRATCH", "/var/tmp")
-    scratch = tempfile.mkdtemp(prefix="verif-%s-" % pid, dir=scratch_root)
-    if not a.keep:
-        atexit.register(lambda: shutil.rmtree(scratch, ignore_errors=True))
-
-    kanirun.ENV["VERIF_GEN_DIR"] = scratch
     # feature sets needed
     fs_needed = []
     jobs = []
@@ -286,26 +290,19 @@ def main(a):
         for fs in feats:
             if fs not in fs_needed:
                 fs_needed.append(fs)
-            jobs.append({"fs": fs, "harness": h.fq, "timeout": h.timeout, "h": h})
+            jobs.append({"fs": fs, "harness": h.fq, "timeout": h.timeout, "h": h, "weight": max(1, h.timeout // 60)})
     build_times = {}
-    tdirs = {}
-    for fs in fs_needed:
-        tdirs[fs] = os.path.join(scratch, "target-" + fs)
-        cache = os.path.join(VERIF, ".cache", "target-" + fs)
-        if os.path.isdir(cache):
-            subprocess.run(["cp", "-a", cache, tdirs[fs]], check=False)
-            for fp in glob.glob(os.path.join(tdirs[fs], "kani", "*", "debug", ".fingerprint", "rust-cc-*")) + \
-                    glob.glob(os.path.join(tdirs[fs], "kani", "*", "debug", ".fingerprint", "rust_cc-*")):
-                shutil.rmtree(fp, ignore_errors=True)
-        try:
-            build_times[fs] = kanirun.build(tdirs[fs], fs, os.path.join(scratch, "build-%s.log" % fs))
-        except kanirun.BuildError as e:
-            print("UNDECIDED property=%s %s" % (pid, e))
-            return 2
-    for j in jobs:
-        j["target_dir"] = tdirs[j["fs"]]
-
-    results = kanirun.run_many(None, jobs, nproc=a.jobs)
+    tdirs = {fs: os.path.join(scratch, "target-" + fs) for fs in fs_needed}
+    import concurrent.futures as _cf
+    with _cf.ThreadPoolExecutor(max_workers=4) as ex:
+        futs = {fs: ex.submit(kanirun.build, tdirs[fs], fs, os.path.join(scratch, "build-%s.log" % fs)) for fs in fs_needed}
+        for fs, f in futs.items():
+            try:
+                build_times[fs] = f.result()
+            except kanirun.BuildError as e:
+                print("UNDECIDED property=%s %s" % (pid, e))
+                return 2
+    results = kanirun.run_many(tdirs, jobs, nproc=a.jobs, scratch=scratch)
 
     # ---------------------------------------------------------------- verdict
     known = load_known()
@@ -325,7 +322,7 @@ def main(a):
         if h.role == "canary":
             canary_ok = r["status"] == "FAILED" and any("canary" in c["description"] for c in failed)
             continue
-        n_checks += len(succ) + len(failed) + len(unreach) + len(undet)
+        n_checks += len(succ) + len(failed) + len(undet)   # reachable checks; unreachable ones are counted separately
         n_ok += len(succ)
         n_unreach += len(unreach)
         rec = {"harness": h.fq, "fs": r["fs"], "kind": h.kind + ((" (" + h.bound + ")") if h.bound else ""),
@@ -479,8 +476,8 @@ def main(a):
         "build_time_s": {k: round(v, 1) for k, v in build_times.items()},
         "undecided": undecided,
         "known_findings_hit": [kf["what"] for kf, _ in known_hit],
-        "repo_head": subprocess.run(["git", "-C", REPO, "rev-parse", "HEAD"], stdout=subprocess.PIPE, text=True).stdout.strip(),
-        "repo_dirty": bool(subprocess.run(["git", "-C", REPO, "status", "--porcelain", "--untracked-files=no"], stdout=subprocess.PIPE, text=True).stdout.strip()),
+        "repo_head": subprocess.run(["git", "-C", kanirun.REAL_REPO, "rev-parse", "HEAD"], stdout=subprocess.PIPE, text=True).stdout.strip(),
+        "repo_dirty": bool(subprocess.run(["git", "-C", kanirun.REAL_REPO, "status", "--porcelain", "--untracked-files=no"], stdout=subprocess.PIPE, text=True).stdout.strip()),
         "exhaustive": False,
     }
     if extra_ev:
